@@ -56,7 +56,7 @@ func cmdFunc(args []string) {
 	fmt.Printf("loaded in %.1fs, %d contracts\n", time.Since(t0).Seconds(), len(en.CS.Funcs))
 	var keys []string
 	for k, fc := range en.CS.Funcs {
-		if fc.Trusted || fc.External {
+		if fc.Trusted || fc.External || (fc.Inline && len(fc.Props) == 0) {
 			continue
 		}
 		if len(fs.Args()) == 0 {
